@@ -44,7 +44,7 @@ Definition vi_setters (h : list vi_op) : list vi_op := filter is_setter h.
 (* a solver written as a pure function of the declared inputs (no object at all) *)
 Definition vi_pure (tol : Q) (hor : nat) (param : vfun) (m : mdp) : Q * vfun * mat :=
   let S := nS m in
-  let v1 := if Nat.eqb (length (vf_values param)) S then param else make_vfun S in
+  let v1 := vi_init param S in
   let useTol := negb (eqSmall tol 0%Q) in
   let '(variation, v, q) := vi_loop m useTol tol hor (tol * 2)%Q v1 (make_qfun S (nA m)) in
   (if useTol then variation else 0%Q, v, q).
